@@ -27,7 +27,7 @@ def observe(dh):
 def gen_history(rng, names):
     ops = []
     for _ in range(rng.randint(3, 10)):
-        k = rng.choice(['construct', 'construct-params', 'mutate', 'manager', 'xpath', 'exempt'])
+        k = rng.choice(['construct', 'construct-params', 'mutate', 'manager', 'xpath', 'exempt', 'inspect'])
         ops.append([k, rng.choice(names), rng.randrange(1 << 20)])
     return {'kind': 'history', 'watch': rng.sample(names, 3), 'ops': ops}
 
@@ -85,6 +85,12 @@ class C16(Check):
         for i in range(8 if tier == 'quick' else 200):
             out.append({'kind': 'argsafe', 'profiles': [rng.choice(profs) for _ in range(rng.choice([2, 3, 4]))],
                         'ignore': rng.choice([['*custom pattern*'], ['exact message'], [], ['a*', '*b']]), 'i': i})
+        # user-supplied additional capabilities that merely LOOK like NETCONF base URIs: the client's list still contains a real one
+        lookalikes = ['urn:acme:nms:base:1.2', 'http://example.com/yang?module=acme:base:types', 'urn:ietf:params:netconf:capability:base:1.0',
+                      'urn:x:base:1.1', 'urn:ietf:params:netconf:base', 'URN:IETF:PARAMS:NETCONF:BASE:1.0', 'urn:custom:capability:1.0']
+        for i, p_ in enumerate(profs):
+            for j in range(2 if tier == 'quick' else 6):
+                out.append({'kind': 'basecap', 'profile': p_, 'extras': rng.sample(lookalikes, rng.randint(1, 3))})
         return out
 
     def search(self, tier, rng, broken):
@@ -130,6 +136,10 @@ class C16(Check):
             if isinstance(a, functools.partial):
                 return {'cls': a.args[0].__module__ + '.' + a.args[0].__name__}
             return {'cls': None}
+        if k == 'basecap':
+            dh = manager.make_device_handler({'name': case['profile']})
+            dh.add_additional_netconf_params({'capabilities': list(case['extras'])})
+            return {'caps': [str(c) for c in dh.get_capabilities()]}
         if k == 'subseq':
             from impl import sshmock
             res = []
@@ -188,6 +198,14 @@ class C16(Check):
                     dh = manager.make_device_handler({'name': name})
                     m = manager.Manager(StubSession([]), dh)
                     m._vendor_operations['get'] = object
+                elif op == 'inspect':
+                    # looking at a manager (tab completion, logging, feature tests) is not using it
+                    m = manager.Manager(StubSession([]), manager.make_device_handler({'name': name}))
+                    dir(m), repr(m), str(m), hasattr(m, 'no_such_operation'), hasattr(m, 'commit'), sorted(vars(m))
+                    for attr in ('available_operations', 'operations'):
+                        f = getattr(type(m), attr, None)
+                        if callable(f):
+                            f(m)
                 elif op == 'xpath':
                     class R:
                         _root = to_ele('<a xmlns="urn:a"><b>1</b></a>')
@@ -238,6 +256,11 @@ class C16(Check):
                 if r['asked'] != want:
                     return ('C16:subsystem-requests-depend-on-earlier-connect', 'connect #%d (%s, preferred %r) to the same host:port asked the server for %s; its own handler\'s '
                             'candidates are %s (accepted at position %d); earlier connects: %s' % (n + 1, c['profile'], c['pref'], r['asked'], r['candidates'], c['accept_at'], case['conns'][:n]))
+            return None
+        if k == 'basecap':
+            if not (set(io['caps']) & BASE_URIS):
+                return ('C16:no-base-capability@' + case['profile'], 'with the additional capabilities %s the client capability list of %s contains no NETCONF base URI: %s' % (
+                    case['extras'], case['profile'], io['caps'][:6]))
             return None
         if k == 'argsafe':
             if not io['args_unchanged']:
@@ -303,7 +326,7 @@ class C16(Check):
         return None
 
     def nontrivial(self, case, io):
-        return case['kind'] in ('profile', 'history', 'iso', 'userhandler', 'subseq', 'argsafe')
+        return case['kind'] in ('profile', 'history', 'iso', 'userhandler', 'subseq', 'argsafe', 'basecap')
 
     def extra_coverage(self):
         return {'gen_tables': {'Gen/Profiles.lean': len(getattr(self, '_profiles', [])), 'Gen/Isolation.lean': len(getattr(self, '_iso', []))}}
